@@ -1236,7 +1236,30 @@ func (g *Gen) bvBinop(st *State, op token.Token, a, b string, xt, rt types.Type)
 
 // anchored checks the `assert at|after "text"` clauses whose anchor occurs in the given source line.
 func (g *Gen) anchored(st *State, line, kind string) {
-	if line == "" || g.spec == nil || len(g.spec.Asserts) == 0 {
+	if line == "" || g.spec == nil {
+		return
+	}
+	if kind == "assert-at" {
+		for anchor, sets := range g.spec.SetAts {
+			if !strings.Contains(line, anchor) {
+				continue
+			}
+			ctx := &specCtx{g: g, st: st, old: g.entry}
+			nv := map[string]Val{}
+			for _, sc := range sets {
+				nv[sc.Name] = g.evalSpec(ctx, sc.E)
+				g.setAtUse[sc]++
+			}
+			for n, v := range nv {
+				if _, ok := st.ghosts[n]; !ok {
+					g.unsupported("setat of undeclared ghost " + n)
+				}
+				st.ghosts[n] = v
+				g.noteGhostWrite(n)
+			}
+		}
+	}
+	if len(g.spec.Asserts) == 0 {
 		return
 	}
 	for anchor, cl := range g.spec.Asserts {
